@@ -126,9 +126,9 @@ def zz():
 class RandGen:
     """well-formed by construction: grounded heads, no shadowing, positive programs"""
 
-    def __init__(self, seed, max_arity=2, max_body=2):
+    def __init__(self, seed, max_arity=2, max_body=2, sugar=False):
         self.rng = random.Random(seed)
-        self.max_arity, self.max_body = max_arity, max_body
+        self.max_arity, self.max_body, self.sugar = max_arity, max_body, sugar
 
     def program(self, name, nrel=None, nrule=None):
         rng = self.rng
@@ -150,10 +150,13 @@ class RandGen:
         bound = []
         body = []
         if rng.random() < 0.2:
-            if rng.random() < 0.5:
+            k_ = rng.random()
+            if k_ < 0.4:
                 body.append(Let(PV("b0"), C(rng.randint(0, 2))))
-            else:
+            elif k_ < 0.75:
                 body.append(For(PV("b0"), Rng(C(0), C(rng.randint(2, 3)))))
+            else:
+                body.append(For(PRef(PV("b0")), ArrIter(sorted(rng.sample([0, 1, 2], 2)))))
             bound.append("b0")
         for _i in range(nb):
             r = rng.choice(rels)
@@ -191,18 +194,29 @@ class RandGen:
                 nm = "l%d" % len(bound)
                 body.append(Let(PV(nm), Bin("%", Bin("+", V(rng.choice(bound)), C(rng.randint(1, 2))), C(3))))
                 bound.append(nm)
-        hr = rng.choice(rels)
-        hargs = []
-        for _j in range(hr.arity):
-            if bound and rng.random() < 0.85:
-                hargs.append(V(rng.choice(bound)))
-            else:
-                hargs.append(C(rng.randint(0, 2)))
-        return Rule([Head(hr.name, hargs)], body)
+        # sugar (only when asked for): wrap one clause into a disjunction with an alternative clause binding the same variables
+        if self.sugar and body and rng.random() < 0.3:
+            idx = [i for i, it in enumerate(body) if isinstance(it, Clause)]
+            i = rng.choice(idx)
+            cl = body[i]
+            alt_rel = rng.choice([r for r in rels if r.arity == len(cl.args)] or [None])
+            if alt_rel is not None:
+                body[i] = Disj([[cl], [Clause(alt_rel.name, list(cl.args))]])
+        heads = []
+        for _h in range(2 if (self.sugar and rng.random() < 0.25) else 1):
+            hr = rng.choice(rels)
+            hargs = []
+            for _j in range(hr.arity):
+                if bound and rng.random() < 0.85:
+                    hargs.append(V(rng.choice(bound)))
+                else:
+                    hargs.append(C(rng.randint(0, 2)))
+            heads.append(Head(hr.name, hargs))
+        return Rule(heads, body)
 
 
-def random_programs(seed, count, prefix="rnd", max_arity=2, max_body=2):
-    g = RandGen(seed, max_arity, max_body)
+def random_programs(seed, count, prefix="rnd", max_arity=2, max_body=2, sugar=False):
+    g = RandGen(seed, max_arity, max_body, sugar)
     return [g.program("%s%d_%d" % (prefix, seed % 1000, i)) for i in range(count)]
 
 
